@@ -34,6 +34,10 @@ func main() {
 		runCases(os.Args[2:])
 	case "parse1":
 		parse1Main()
+	case "race07":
+		race07Main(os.Args[2:])
+	case "race14":
+		race14Main(os.Args[2:])
 	default:
 		usage()
 	}
